@@ -69,6 +69,8 @@ class Ctx:
         cmd = ["go", "build"] + modfile_args(self.work) + ["-tags", tags, "-o", out]
         if race:
             cmd.append("-race")
+        if os.environ.get("VERIF_COVER"):     # bin/vcover: statement coverage of /repo reached by the harness (GOCOVERDIR is inherited)
+            cmd += ["-cover", "-coverpkg=github.com/gdamore/tcell/v2,github.com/gdamore/tcell/v2/terminfo,github.com/gdamore/tcell/v2/views"]
         cmd.append("./cmd/vh")
         env = dict(os.environ, **GOENV)
         t = time.time()
